@@ -283,7 +283,13 @@ impl<'a> Gen<'a> {
         if !self.exts.is_empty() && rng.chance(1, 2) {
             let ns = rng.pick(&self.exts).0.clone();
             let name = (*rng.pick(&["normalX", "temperature", "classification", "my_attr-1", "intensity", "cartesianX", "guid", "1st", "-x", "_y", "z-9"])).to_string();
-            p.push(Rec { name: RName::Ext(ns, name), dt: gen_real_dt(rng, true) });
+            p.push(Rec { name: RName::Ext(ns.clone(), name), dt: gen_real_dt(rng, true) });
+            // further records of the same (or another registered) namespace; every one of them has to be checked
+            while rng.chance(2, 5) {
+                let ns2 = if rng.chance(2, 3) { ns.clone() } else { rng.pick(&self.exts).0.clone() };
+                let name2 = (*rng.pick(&["second", "third_attr", "n-2", "bad name", "1st", "", "xmlq", "\u{e4}", "a.b", "ok2", "-x"])).to_string();
+                p.push(Rec { name: RName::Ext(ns2, name2), dt: gen_real_dt(rng, true) });
+            }
         }
         if rng.chance(1, 4) {
             // shuffle the record order
@@ -995,6 +1001,46 @@ pub fn generate(sink: &mut Sink, seed: u64, thorough: bool) {
             let body: Vec<PcStmt> = (0..n).map(|_| PcStmt::P(g.point(proto))).collect();
             let prog = Program { guid: "cap".into(), stmts: vec![Stmt::Pc { guid: "pc".into(), proto: proto.clone(), body, end: true }, Stmt::Fin] };
             run_one(sink, &prog, "packet_capacity");
+        }
+    }
+    // 4. carry stress: many records whose widths are not multiples of 8, several full packets — the partial byte
+    //    every stream carries from packet to packet must still fit the packet that follows
+    let n_stress = if thorough { 40 } else { 12 };
+    for k in 0..n_stress {
+        let nrec = *rng.pick(&[4usize, 6, 8, 9, 10, 11, 12]);
+        let mut proto = vec![std("cartesianX", DT::F32(None, None)), std("cartesianY", DT::F32(None, None)), std("cartesianZ", DT::F32(None, None))];
+        let names = ["colorRed", "colorGreen", "colorBlue", "intensity", "rowIndex", "columnIndex", "returnIndex", "returnCount", "cartesianInvalidState", "isIntensityInvalid", "isColorInvalid", "timeStamp"];
+        for n in names.iter().take(nrec.min(names.len())) {
+            let bits = match *n {
+                "cartesianInvalidState" => 2,
+                "isIntensityInvalid" | "isColorInvalid" => 1,
+                _ => 1 + rng.below(13),
+            };
+            proto.push(std(n, DT::I(0, (1i64 << bits) - 1)));
+        }
+        if k % 2 == 1 {
+            proto.drain(0..3);
+            proto.insert(0, std("sphericalRange", DT::I(0, 1000)));
+            proto.insert(1, std("sphericalAzimuth", DT::F32(None, None)));
+            proto.insert(2, std("sphericalElevation", DT::F32(None, None)));
+        }
+        if !ref_prototype_ok(&proto, &[]) {
+            continue;
+        }
+        let cap = Gen::ref_max_points(&proto);
+        let n = (if thorough { 8 } else if k == 0 { 3 } else { 5 }) * cap + 7;
+        let mut g = Gen { rng: &mut rng, exts: vec![], n: 0 };
+        let body: Vec<PcStmt> = (0..n).map(|_| PcStmt::P(g.point(&proto))).collect();
+        let prog = Program { guid: "carry".into(), stmts: vec![Stmt::Pc { guid: "pc".into(), proto: proto.clone(), body, end: true }, Stmt::Fin] };
+        // implementation and oracle always; the model on the first of them (lists of bytes: a few seconds each)
+        if k == 0 {
+            run_one(sink, &prog, "carry_stress");
+        } else {
+            let line = prog.case_line(&lv);
+            let dev = SimDev::new(vec![]);
+            let run = execute(&prog, &dev);
+            oracle_program(sink, &line, &prog, &run);
+            sink.stat("carry_stress_impl_only");
         }
     }
 }
